@@ -388,7 +388,7 @@ type absStream struct {
 	Tail int      `json:"tail"`
 }
 
-var insLen = map[string]int{"p1": 1, "p3": 3, "p5": 5, "p6": 6, "j8w": 2, "j8n": 2, "jmp8": 2, "jcc32": 6, "jmp32": 5, "call32": 5, "rip7": 7, "lea7": 7, "ret": 1}
+var insLen = map[string]int{"p1": 1, "p3": 3, "p5": 5, "p6": 6, "p3c": 3, "p6c": 6, "j8w": 2, "j8n": 2, "jmp8": 2, "jcc32": 6, "jmp32": 5, "call32": 5, "rip7": 7, "lea7": 7, "ret": 1}
 
 // synth turns an abstract stream of spec/Gen_Reloc.tla into machine code.
 func synth(s absStream) []byte {
@@ -421,6 +421,10 @@ func synth(s absStream) []byte {
 			code = append(code, 0xb8, 0x78, 0x56, 0x34, 0x12)
 		case "p6":
 			code = append(code, 0x48, 0xa9, 0x78, 0x56, 0x34, 0x12)
+		case "p3c": // mov %rax,%rbx: a plain instruction whose LAST byte reads as RET
+			code = append(code, 0x48, 0x89, 0xc3)
+		case "p6c": // test $imm32,%rax with an immediate whose last byte reads as RET
+			code = append(code, 0x48, 0xa9, 0x78, 0x56, 0x34, 0xc3)
 		case "j8w":
 			code = append(code, 0x74, byte(int8(rel)))
 		case "j8n":
